@@ -327,7 +327,10 @@ def assert_valid_covariance(
       of the matrix because that is the scale of eigenvalue rounding error)
     """
     assert isinstance(covariance, np.ndarray)
-    assert np.allclose(covariance, covariance.T)
+    # symmetric relative to the magnitude of the matrix (an absolute tolerance
+    # would make the verdict depend on the units of the state)
+    largest_entry = np.max(np.abs(covariance), initial=0.0)
+    assert np.allclose(covariance, covariance.T, atol=1e-8 * largest_entry)
 
     covariance_eigenvalues = np.linalg.eig(covariance)[0]
     magnitude = np.max(np.abs(covariance_eigenvalues), initial=0.0)
